@@ -21,6 +21,11 @@ def twin_of(case, drop):
     return c
 
 
+def _norm(res):
+    """Exception messages embed scratch paths: compare class and error code only."""
+    return res[:3] if res and res[0] == "exc" else res
+
+
 def compare_after(w1, w2, from_id, oracle, violate, subset_logs=True):
     """Compares observations of ops with id > from_id."""
     o2 = {o["i"]: o for o in w2.obs}
@@ -30,7 +35,7 @@ def compare_after(w1, w2, from_id, oracle, violate, subset_logs=True):
             continue
         t = o2[o["i"]]
         n += 1
-        if o["res"] != t["res"]:
+        if _norm(o["res"]) != _norm(t["res"]):
             violate(oracle, f"op {o['i']} {o['op']} {o.get('entry') or o.get('path')}: result {str(o['res'])[:200]} differs from the "
                             f"twin history's {str(t['res'])[:200]}")
         if o["op"] == "eval":
